@@ -41,8 +41,8 @@ class World:
             "m = [length]",
             "s = [time]",
             "g = [mass]",
-            "kk- = 1000",
-            f"u = {L(self.su)} * m",
+            "kk- = 1000 = K-",
+            f"u = {L(self.su)} * m = U_ = uu",
             "w = 3 * u",
             f"@context(n={L(self.n1, paren=False)}) c1 = C1",
             f"    [length] -> [time]: value * {L(self.k1)} * n * s / m",
